@@ -2,7 +2,7 @@
 import diffcheck
 import gen_drv
 import p_c05rt
-from p_drv import DrvProp, K, parse, steps_of
+from p_drv import DrvProp, K, parse, steps_of, fifo_violation
 
 ECANCELED = 125
 
@@ -27,6 +27,9 @@ def oracle(case, out):
             # dropping the driver may legitimately cancel what is in flight
             if not any(e[0] == K["DROP_BEGIN"] for e in evs[:idx]):
                 return "operation %d completed with ECANCELED without having been cancelled" % key
+    r = fifo_violation(case, out)
+    if r:
+        return r
     # honest: the result of a cancelled recv is ECANCELED or genuine data, never a fabricated success
     for key in cancelled_keys:
         i = slot_by_key.get(key)
@@ -58,7 +61,20 @@ def oracle(case, out):
             continue
         polls_after = [st for st in steps[step_idx + 1:] if st[0] == 5 and st[1] >= 5]
         dropped_driver = any(st[0] == 10 for st in steps)
-        if len(polls_after) >= 1 and not dropped_driver:
+        # a poll that delivers a thread-pool result returns at once, without submitting or waiting
+        # (legitimately): it gives the kernel no chance to answer.  Count the others.
+        blocking_keys = {s["key"] for s in slots if s["kind"] == 3}
+        effective, inside, early = 0, False, False
+        for (ek, ekey, _) in evs[cidx:]:
+            if ek == 107 and ekey == 0:
+                inside, early = True, False
+            elif ek == 107 and ekey == 1:
+                if inside and not early:
+                    effective += 1
+                inside = False
+            elif inside and ek == K["SETRES"] and ekey in blocking_keys:
+                early = True
+        if len(polls_after) >= 1 and effective >= 2 and not dropped_driver:
             if not any(e[0] == K["SETRES"] and e[1] == key for e in evs[cidx:]):
                 return ("operation %d (slot %d) was cancelled and the driver polled, but it never finished "
                         "(cancellation not prompt)" % (key, i))
